@@ -16,7 +16,7 @@ from typing import Any, Dict, List, Optional, Tuple
 
 from ..cfg import cfg_of
 from ..flow import Sym, fpaths, attr_effects, allfacts
-from ..model import FuncInfo, attr_chain, norm, walk_no_nested
+from ..model import FuncInfo, attr_chain, norm, walk_no_nested, AnalysisError
 from ..report import Checker
 from .common import must_attempt, shutdown_hook_check
 
@@ -301,6 +301,30 @@ def run(ch: Checker) -> None:
              bad2c[0] if bad2c else 'no relaying path found', witness=bad2c[1] if bad2c else None)
 
     # ---------------- C09.4b (shared)
+    ch.rule('C09.10', 'a plugin\'s rejection is answered on every request of the connection: in HttpProtocolHandler.handle_data the calls that can raise a rejection -- the first-request path and plugin.on_client_data for every later '
+                      'request -- both sit inside the try whose HttpProtocolException handler queues e.response(); outside it a later request\'s rejection is a bare teardown without the plugin\'s response', 2)
+    hd10 = prog.own_method('HttpProtocolHandler', 'handle_data')
+    from ..flow import enclosing_handlers
+    n10 = 0
+    for c10 in walk_no_nested(hd10.node):
+        if isinstance(c10, ast.Call) and attr_chain(c10.func) in ('self.plugin.on_client_data', 'self._parse_first_request'):
+            n10 += 1
+            ok10 = False
+            for t10, in_body in enclosing_handlers(hd10.node, c10):
+                if not in_body:
+                    continue
+                for h10 in t10.handlers:
+                    names10 = [norm(x) for x in (h10.type.elts if isinstance(h10.type, ast.Tuple) else [h10.type])] if h10.type is not None else []
+                    queues = any(isinstance(x, ast.Call) and isinstance(x.func, ast.Attribute) and x.func.attr == 'response' for s_ in h10.body for x in ast.walk(s_)) and \
+                        any(isinstance(x, ast.Call) and (attr_chain(x.func) or '').endswith('.queue') for s_ in h10.body for x in ast.walk(s_))
+                    if any(nm.split('.')[-1] == 'HttpProtocolException' for nm in names10) and queues:
+                        ok10 = True
+            ch.check(ok10, 'C09.10', hd10, c10, 'inside the try whose handler sends the rejection response',
+                     '%s is called outside the try/except HttpProtocolException of handle_data: when a plugin rejects this request (HttpRequestRejected with a response) the exception escapes, the connection is torn down '
+                     'by the generic error path and the client sees end-of-stream instead of the plugin\'s response' % norm(c10.func))
+    if n10 < 2:
+        raise AnalysisError('anchor vanished: handle_data no longer calls both _parse_first_request and plugin.on_client_data')
+    ch.import_rules('C10', {'C10.4': 'C09.9'}, 'the close hooks of the plugins run only if nothing that can raise precedes them in on_client_connection_close')
     ch.import_rules('C06', {'C06.1': 'C09.4b'}, 'exactly the plugin\'s chosen response is sent only if the builder frames the body it is given (Content-Length of this body, not a value left in a reused header map)')
 
     # ---------------- C09.1b (shared)
